@@ -44,6 +44,17 @@ def gen_jobs(ctx):
                                       maxfork=2, commits=2, baseadv=1 if not th else 2, merges=1,
                                       ops=["ModifyLabels", "DeleteRule", "AddRule", "RenameFile", "DeleteFile", "BaseAdvance", "MergeBase"]),
          150 if not th else 3000, dict(workers=2 if not th else 6)),
+        # (8) exhaustive: the base branch edits (labels/expression) or extends a file the branch also changes, never merged -
+        #     incl. the same edit on both sides; the tip of the base branch must stay invisible
+        ("c03_gen_basetouch.cfg", gh.cfg("EmitCase", npaths=1, names=["n1"], bodies=["v1"], labs=["l1", "l2"], maxrules=2,
+                                          maxfork=2, commits=2, baseadv=1 if not th else 2,
+                                          ops=["ModifyLabels", "AddRule", "DeleteRule", "BaseAdvance"]),
+         150 if not th else 2000, dict(workers=2)),
+        # (9) exhaustive: alert-only fields (for / annotations) and label edits of one alerting rule
+        ("c03_gen_alertfields.cfg", gh.cfg("EmitCase", npaths=1, kinds=["alr"], names=["n1"], bodies=["v1"], labs=["l1", "l2"],
+                                            exts=["x0", "x1", "x2"], maxrules=2, maxfork=1, commits=1 if not th else 2,
+                                            ops=["ModifyAlertFields", "ModifyLabels", "AddRule"]),
+         40 if not th else 300, dict(workers=1)),
         # (4) simulation over the wide vocabulary: random prefixes, every successor of every visited history
         ("c03_sim_wide.cfg", gh.cfg("EmitCase", **wide), 400 if not th else 8000,
          dict(simulate=5 if not th else 50, depth=12 if not th else 14, workers=1)),
@@ -73,6 +84,9 @@ def mc_jobs(ctx, mode):
                                   commits=2, baseadv=1 if not th else 2, merges=1,
                                   ops=["ModifyLabels", "DeleteRule", "AddRule", "RenameFile", "DeleteFile", "BaseAdvance", "MergeBase"])),
     ]
+    runs.append(("c03_mc_basetouch.cfg", dict(npaths=1, names=["n1"], bodies=["v1"], labs=["l1", "l2"], maxrules=2, maxfork=2,
+                                              commits=2, baseadv=1 if not th else 2,
+                                              ops=["ModifyLabels", "AddRule", "DeleteRule", "BaseAdvance"])))
     if th:
         runs.append(("c03_mc_fields.cfg", dict(npaths=2, kinds=["rec", "alr"], names=["n1", "n2"], bodies=["v1", "v2"],
                                                labs=["l1"], cmts=["none", "c1"], pads=[0, 1], exts=["x0", "x1", "x2"], maxrules=2,
@@ -89,7 +103,7 @@ def model_and_cases(ctx, mode):
     jobs = [(lambda j=j: gh.gen(ctx, j[0], j[1], budget=j[2], **j[3])) for j in gj]
     jobs += [(lambda j=j: ctx.tlc("GitHistory", j[0], files={j[0]: j[1]}, allow_violation=True, timeout=3000,
                                   workers=j[2], heap="3g" if ctx.thorough else "1g")) for j in mj]
-    res = gh.run_parallel(jobs, width=7 if not ctx.thorough else 5)
+    res = gh.run_parallel(jobs, width=3)
     parts, stats = [], []
     for j, (cs, r) in zip(gj, res[:len(gj)]):
         parts.extend(cs)   # already de-duplicated and sub-sampled inside gh.gen (memory)
@@ -177,6 +191,7 @@ def run(ctx, cases_override=None):
         "rule": "distinct = fork tree + (name-status, content) of every commit; non-trivial = >=2 commits or a file-level add/delete/rename/revert",
         "bound_only_histories": sum(1 for x in tags.get("NDEPS", []) if x[3] == 1),
         "histories_with_unparsable_head_file": sum(1 for x in tags.get("NDEPS", []) if x[4] == 1),
+        "histories_where_base_branch_touches_a_file_the_branch_changes": sum(1 for c in cases if c.get("hint", {}).get("basetouch")),
         "histories_with_merge_of_base": sum(1 for c in cases if any(o["op"] == "MergeBase" for o in c["log"])),
         "histories_with_multi_file_commit": sum(1 for c in cases if any(o.get("more") for o in c["log"])),
         "ops_histogram": {k: sum(1 for c in cases for o in c["log"] if o["op"] == k) for k in sorted({o["op"] for c in cases for o in c["log"]})},
